@@ -66,9 +66,11 @@ impl EmmyLuaEmitter {
             }
         }
 
-        // Use ["name"] form for field names with special characters
+        // Use ["name"] form for field names with special characters. The name
+        // is written as a string literal; a name that no literal can hold
+        // (both quote characters, or a line break) is covered by `[string]`.
         let formatted_name = if needs_bracket_notation(name) {
-            format!("[\"{}\"]", name)
+            format!("[{}]", string_literal_type(name))
         } else {
             name.to_string()
         };
